@@ -75,9 +75,9 @@ CHECKS = {
    note="as C04"),
  "C15": dict(
    category="translation_validation",
-   text="the C implementation of /repo/c is built from the working tree on every run; for generated tables (NUL-free) Go writes / C reads and C writes / Go reads, every scan, seek and RefsFor compared with the records written; every C-written file is judged by the extracted Coq spec decoder and read by the model reader (= what the Go reader must return). Found and fixed 5 defects of the C twin",
+   text="the C implementation of /repo/c is built from the working tree on every run; for generated tables (NUL-free) Go writes / C reads and C writes / Go reads, every scan, seek and RefsFor compared with the records written; every C-written file is judged by the extracted Coq spec decoder and read by the model reader (= what the Go reader must return). Stack directories in both directions: the C stack opens and scans directories the Go stack wrote (histories with Additions and compactions), the Go stack opens and scans directories the C stack wrote (adds with C's own auto-compaction, compact_all); the views must equal each other and the view the Coq stack model computes. Found and fixed 7 defects of the C twin",
    design="6/C15", technique="differential + translation validation with the extracted Coq spec decoder as judge",
-   note="the C code is not modelled in Coq (no C semantics available in this sandbox): its behaviour is compared, not proved; stack directories are not exchanged, table files only"),
+   note="the C code is not modelled in Coq (no C semantics available in this sandbox): its behaviour is compared, not proved; for stack directories the view is compared, not the table layout"),
  "C19": dict(
    text="Coq theorem C19_interleaving: goroutines that never write the shared state compute, under ANY interleaving, exactly what they compute alone (shared state constant). Coq theorem C19_shared_safe by reflection over gen/EffectsData.v, which the SSA translator (harness/ssa, go/ssa + CHA call graph) regenerates from the working tree on every run: none of the memory-writing instructions reachable from the read API writes to a location owned by a shared type (Reader, Merged, blockReader, block sources), all API roots found. Validated on every run by mixed concurrent workloads on one shared memory-backed Reader, file-backed Reader and Merged under the race detector, results compared with sequential ones",
    design="6/C19", technique="translator (SSA effect summary) + Coq reflection theorem + Coq interleaving theorem; race detector as validation",
